@@ -20,8 +20,8 @@ EVIDENCE_DIR = os.path.join(ROOT, 'evidence')
 REPLAY_DIR = os.path.join(ROOT, 'replays')
 REGRESS_DIR = os.path.join(ROOT, 'regress')
 PY = sys.executable
-RUN_TIMEOUT = 900          # wall seconds per run: last-resort watchdog (kills the worker)
-RUN_CPU_BUDGET = 75        # CPU seconds per run: raises CpuBudgetExceeded inside the run
+RUN_TIMEOUT = 2400         # wall seconds per run: last-resort watchdog (kills the worker)
+RUN_CPU_BUDGET = 150       # CPU seconds per run: raises CpuBudgetExceeded inside the run
 
 
 class HarnessError(Exception):
@@ -51,14 +51,17 @@ def execute_run(mod, run):
     reset_process_globals()
     faulthandler.dump_traceback_later(RUN_TIMEOUT, exit=True)
 
+    budget = float(run.get('cpu_budget', RUN_CPU_BUDGET)) if isinstance(run, dict) \
+        else RUN_CPU_BUDGET             # enumeration runs declare a larger one
+
     def on_budget(signum, frame):
         # re-arm: if the exception is absorbed as the outcome of one call, the rest of the run
         # gets a further slice
-        signal.setitimer(signal.ITIMER_VIRTUAL, RUN_CPU_BUDGET / 3.0)
-        raise CpuBudgetExceeded('run used more than %d s of CPU time' % RUN_CPU_BUDGET)
+        signal.setitimer(signal.ITIMER_VIRTUAL, budget / 3.0)
+        raise CpuBudgetExceeded('run used more than %d s of CPU time' % budget)
 
     old = signal.signal(signal.SIGVTALRM, on_budget)
-    signal.setitimer(signal.ITIMER_VIRTUAL, RUN_CPU_BUDGET)      # process CPU time, not wall
+    signal.setitimer(signal.ITIMER_VIRTUAL, budget)              # process CPU time, not wall
     try:
         return mod.execute(run)
     finally:
